@@ -429,7 +429,9 @@ func appendSnapshotFunctions(b []byte, s *slip.Scope) []byte {
 		}
 		var fia []*slip.FuncInfo
 		p.EachFuncInfo(func(fi *slip.FuncInfo) {
-			if fi.Pkg == p {
+			// A function that is called but not defined yet only has a
+			// placeholder without documentation, there is nothing to save.
+			if fi.Pkg == p && fi.Doc != nil {
 				fia = append(fia, fi)
 			}
 		})
